@@ -112,6 +112,10 @@ pub trait Scenario {
     fn others_done() -> bool {
         false
     }
+    /// total number of operations the other actors have (bounds the rounds inside a condvar wait)
+    fn others_ops() -> u8 {
+        3
+    }
     /// The operation on the harness stack cannot make progress and nobody is left to help it:
     /// decide whether that is a lost wake-up (assert) or a legitimately blocked thread
     /// (`kani::assume(false)`).  Must not return normally.
@@ -134,7 +138,8 @@ pub fn cv_wait_impl<Sc: Scenario>(addr: usize) {
     s.cv_entered = true;
     let n0 = unsafe { *(addr as *const usize) };
     let mut rounds = 0;
-    while rounds < 6 {
+    let max_rounds = Sc::others_ops() + 1;
+    while rounds < max_rounds {
         if unsafe { *(addr as *const usize) } != n0 {
             return;
         }
